@@ -6,15 +6,23 @@ import (
 )
 
 func Normalize(json any) any {
+	flattened, err := normalize(json)
+	if err != nil {
+		panic(err)
+	}
+	return flattened
+}
+
+func normalize(json any) (any, error) {
 	proc := ld.NewJsonLdProcessor()
 	options := ld.NewJsonLdOptions("")
 	context := make(types.ObjectMap)
 	flattened, err := proc.Flatten(json, context, options)
 	if err != nil {
-		panic(err)
+		return nil, err
 	}
 
-	return flattened
+	return flattened, nil
 }
 
 func Index(json any) any {
